@@ -4,7 +4,7 @@ to the same kind of preceding event, reappears."""
 import copy
 
 from . import sources
-from .engine import Violation, attribute, run_schedule, signature
+from .engine import attribute, execute, signature, violation_from_json
 
 
 def _same_kind(v, want):
@@ -16,12 +16,10 @@ def _same_kind(v, want):
 
 
 def _try(schedule, want):
-    try:
-        _, v = run_schedule(schedule)
-    except sources.SourceError:
+    res = execute(schedule)
+    if res["violation"] is None:
         return None
-    except Violation as v:  # raised while building: treat like any other
-        return v if _same_kind(v, want) else None
+    v = violation_from_json(res["violation"])
     if _same_kind(v, want):
         return v
     return None
@@ -125,9 +123,10 @@ def minimise(schedule, v, max_tests=400):
     schedule = simplify_args(schedule, want, budget)
     schedule = simplify_source(schedule, want, budget)
     schedule = ddmin_steps(schedule, want, budget)
-    _, v2 = run_schedule(schedule)
-    if v2 is None:  # cannot happen if the engine is deterministic
+    res = execute(schedule)
+    if res["violation"] is None:  # cannot happen if the engine is deterministic
         raise RuntimeError("minimised schedule no longer fails")
+    v2 = violation_from_json(res["violation"])
     schedule = _truncate(schedule, v2)
     sig = signature(v2, attribute(schedule, v2))
     return schedule, v2, sig, n0
